@@ -144,8 +144,12 @@ func c01LitRanks(s core.Sexp, out *[]int64) {
 // a small row universe: the literals of the statement and their neighbours, and a sample of the rule's points
 func (c *c01Ctx) smallUniverse(g *core.Gen, conds []core.Sexp) core.Sexp {
 	var base []int64
-	for _, s := range conds {
-		c01LitRanks(s, &base)
+	if c.q != nil {
+		base = append(base, c.used.ranks...)
+	} else {
+		for _, s := range conds {
+			c01LitRanks(s, &base)
+		}
 	}
 	for i := 0; i < 10; i++ {
 		base = append(base, core.Pick(g, c.pts))
@@ -164,14 +168,18 @@ func (c *c01Ctx) smallUniverse(g *core.Gen, conds []core.Sexp) core.Sexp {
 	var us []core.Sexp
 	for _, v := range ranks {
 		var key interface{} = v
+		val := core.I(v)
 		if c.r.dateFmt != "" && c.colType != 2 {
 			key = time.Unix(v, 0).UTC().Format("2006-01-02 15:04:05")
+			if c.q != nil { // literals by kind: a DATETIME row is given as its string
+				val = core.L(core.A("s"), core.Text(key.(string)))
+			}
 		}
 		idx, err := c01Find(c.rule, key)
 		if err != nil {
 			continue
 		}
-		us = append(us, core.L(core.I(v), core.I(int64(idx))))
+		us = append(us, core.L(val, core.I(int64(idx))))
 	}
 	return core.L(append([]core.Sexp{core.A("univ")}, us...)...)
 }
@@ -189,6 +197,12 @@ func genC01Join(g *core.Gen, rt *router.Router) {
 		ctx := &c01JoinCtx{c01Ctx: &c01Ctx{r: r, rule: rule, pts: c01Points(r)}}
 		if r.dateFmt != "" {
 			ctx.colType = g.Intn(3)
+		}
+		meta := c01Meta(rule)
+		if g.Intn(5) < 2 { // literals by kind and value, in every spelling
+			ctx.q = &c01QCtx{r: r, rule: rule, pts: ctx.pts, strs: c01StrKeys, strictText: true}
+			ctx.used = &c01LitUse{}
+			meta = c01MetaTyped(rule)
 		}
 		pool := []string{"p", "c1", "c2"}
 		g.Rand.Shuffle(len(pool), func(a, b int) { pool[a], pool[b] = pool[b], pool[a] })
@@ -246,8 +260,8 @@ func genC01Join(g *core.Gen, rt *router.Router) {
 		in := core.L(core.A("join"), core.A(r.name), core.I(int64(ctx.colType)),
 			core.L(append([]core.Sexp{core.A("tables")}, tbls...)...),
 			core.L(append([]core.Sexp{core.A("steps")}, steps...)...),
-			wh, c01Meta(rule), ctx.smallUniverse(g, conds))
-		g.Emit(in, "rule="+r.name, "stmt=join", fmt.Sprintf("tables=%d", nt), "kw="+kw[0])
+			wh, meta, ctx.smallUniverse(g, conds))
+		g.Emit(in, "rule="+r.name, "stmt=join", fmt.Sprintf("tables=%d", nt), "kw="+kw[0], fmt.Sprintf("join-kinds=%v", ctx.q != nil))
 	}
 }
 
